@@ -119,7 +119,7 @@ CNT_STREAM = {"name": "CNT", "quick": 1500, "thorough": 30000, "profiles": ["deb
 PROPS["C08"] = {
     "coq": "theories/Props/C08.v",
     "theorems": ["C08_residual", "C08_subframe", "C08_ops_len_is_bits", "C08_frame", "C08_frame_whole_bytes",
-                 "C08_precompute", "C08_either_sink"],
+                 "C08_precompute", "C08_either_sink", "C08_metadata", "C08_stream"],
     "streams": "ENC+CNT",
     "rule": "ENC+CNT",
     "oracle": cnt_oracle,
